@@ -272,7 +272,10 @@ PoolC09one ==
     \cup {Call("translate", <<x, y, z>>) : x \in StrLits({"", "aba", "a-b", "A b"}) \cup {Rel1("child", NTName("d"))},
                                             y \in StrLits({"", "a", "ab", "ba-", "aa"}), z \in StrLits({"", "x", "xy", "xyz"})}
     \cup {Call("string-join", <<p, sep>>) : p \in {Rel1("child", NTName("b")), Rel1("child", NTName("zz")), Rel1("child", NTAny),
-                                                     Path(FALSE, <<Step("child", NTAny, <<>>), Step("child", NTText, <<>>)>>)},
+                                                     Path(FALSE, <<Step("child", NTAny, <<>>), Step("child", NTText, <<>>)>>),
+                                                     \* sequences that START with an empty item, or consist of empty items only
+                                                     Rel1("following-sibling", NTAny), Rel1("following-sibling", NTName("c")),
+                                                     Rel1("child", NTName("c"))},
                                              sep \in StrLits({"", ",", " - "})}
 SubStarts == {Neg(N(3)), Neg(N(1)), Neg(Dec(1, 1)), N(0), Dec(1, 1), N(1), Dec(3, 1), N(2), Dec(5, 1), N(3), N(5), N(6), N(10),
               Neg(Dec(3, 1)), Dec(1, 2)}
@@ -411,7 +414,12 @@ PoolC04 ==
     PE(Path(FALSE, <<Step("parent", NTNode, <<>>), Step("child", NTAny, <<>>)>>), "set"),
     PE(Call("string", <<Rel1("following", NTAny)>>), "set"),
     PE(Call("normalize-space", <<>>), "set"),
-    PE(Bin("+", Call("count", <<Rel1("preceding", NTAny)>>), Call("count", <<Rel1("following", NTAny)>>)), "set") }
+    PE(Bin("+", Call("count", <<Rel1("preceding", NTAny)>>), Call("count", <<Rel1("following", NTAny)>>)), "set"),
+    \* evaluations that ABORT with a deliberate complaint on some context nodes (sum() of a non-numeric string) and
+    \* succeed on others: an aborted evaluation must leave nothing behind either (pooled buffers, half-built results)
+    PE(Call("concat", <<Lit("n="), Call("string", <<Call("sum", <<Call("string", <<SelfDot>>)>>)>>)>>), "none"),
+    PE(Call("concat", <<Call("string", <<Rel1("child", NTAny)>>), Lit("|"), Call("string", <<Call("sum", <<Call("string", <<Rel1("attribute", NTAny)>>)>>)>>)>>), "none"),
+    PE(Call("normalize-space", <<Call("concat", <<Lit(" a "), Call("string", <<Call("sum", <<Call("string", <<SelfDot>>)>>)>>)>>)>>), "none") }
 
 \* the same node-set expressions evaluated IN PLACE by an operator (Evaluate runs
 \* on the compiled tree itself; an early match abandons the operand half-way)
